@@ -263,6 +263,34 @@ func c16exec(j run.Job, a *run.Acc) {
 			}
 		}
 		muts = append(muts, doc+"x", doc+",", doc+" 1", doc+"]", doc+"}", doc+"\"", "["+doc, doc+" "+doc)
+		// one stray byte inserted anywhere (lone CR, quote, bracket, letter): judged only when encoding/json rejects the result.
+		// Bytes that can turn a token into syntax outside the subset are not used: ',' and ':' split a number into ".6" / "06.3",
+		// a backslash makes Go-only escapes such as \v, and + digits / form feed are number / whitespace syntax parsley accepts.
+		const stray = "\r\"q]}[" // 'q', not 'x': "\x.." after a backslash would be a Go-only escape
+		// inside[k]: an insertion at offset k lands inside a string literal. There only CR and 'q' are inserted: a quote or
+		// bracket inside a string can re-pair the backslashes that follow and so create Go-only escapes (\v, \a, \x..)
+		inside := make([]bool, len(doc)+1)
+		in := false
+		for k := 0; k < len(doc); k++ {
+			inside[k] = in
+			switch {
+			case in && doc[k] == '\\':
+				k++
+				if k < len(doc) {
+					inside[k] = true
+				}
+			case doc[k] == '"':
+				in = !in
+			}
+		}
+		for k := 0; k < 6 && len(doc) > 0; k++ {
+			at := r.Intn(len(doc) + 1)
+			ch := stray[r.Intn(len(stray))]
+			if inside[at] && ch != '\r' && ch != 'q' {
+				ch = "\rq"[r.Intn(2)]
+			}
+			muts = append(muts, doc[:at]+string(ch)+doc[at:])
+		}
 		judged := 0
 		for _, m := range muts {
 			if _, jerr := jsonReference([]byte(m)); jerr == nil {
